@@ -234,6 +234,55 @@ def lib_paths(gen_text):
     return out
 
 
+def cost_guard(gen_lines, owner):
+    """Unit `cost` (directive `//@cost-counter <ghost var> :: <walker fns>`): the step counter is an annotation, so it is only
+    meaningful if nothing runs uncounted.  Every loop body of a walker must add to the counter and every call of a walker must
+    bind its Ghost result (`let Ghost(x) = f(..)`).  Returns {block: [what is uncounted]} - a reason to answer UNDECIDED for
+    that function (its annotations are incomplete for the changed text), never an alarm."""
+    from rslex import lex, match_close
+    text = '\n'.join(gen_lines)
+    m = re.search(r'^//@cost-counter\s+(\w+)\s*::\s*(.*)$', text, re.M)
+    if not m:
+        return {}
+    counter, fns = m.group(1), m.group(2).split()
+    bad = {}
+    ts = lex(text)
+    line_of = lambda pos: text.count('\n', 0, pos)
+    k = 0
+    while k < len(ts):
+        kind, tx, a, b = ts[k]
+        blk = owner[line_of(a)] if line_of(a) < len(owner) else None
+        if blk and kind == 'ident' and tx in ('for', 'while', 'loop') and not (k and ts[k - 1][1] in ('.', '::', ':')):
+            # the loop body: the first `{` at nesting depth 0 after the keyword that is not part of an invariant/decreases expression
+            j = k + 1
+            body = None
+            while j < len(ts):
+                if ts[j][1] in ('(', '['):
+                    j = match_close(ts, j) + 1
+                    continue
+                if ts[j][1] == '{':
+                    e = match_close(ts, j)
+                    prev = ts[j - 1][1]
+                    # braces of match / struct-literal / closure inside the loop head's invariant are followed by `,` or more clauses; the body is the last brace group before the statement ends
+                    body = (j, e)
+                    nxt = ts[e + 1][1] if e + 1 < len(ts) else ''
+                    if nxt in (',', ')', '=', '&', '|', '<', '>', '+', '-', '*', '/', '.', '?') or (e + 2 < len(ts) and ts[e + 1][1] == '=' and ts[e + 2][1] == '='):
+                        j = e + 1
+                        continue
+                    break
+                j += 1
+            if body:
+                inner = ' '.join(t[1] for t in ts[body[0]:body[1] + 1])
+                if not re.search(r'\b%s = %s \+' % (counter, counter), inner):
+                    bad.setdefault(blk, []).append('the `%s` loop at generated line %d has no step-counter increment' % (tx, line_of(a) + 1))
+        if blk and kind == 'ident' and tx in fns and k + 1 < len(ts) and ts[k + 1][1] == '(' and not (k and ts[k - 1][1] == 'fn'):
+            pre = [t[1] for t in ts[max(0, k - 6):k]]
+            if pre[-5:-4] + pre[-4:] != ['Ghost', '(', pre[-3] if len(pre) >= 3 else '', ')', '='] or (len(pre) >= 6 and pre[-6] != 'let'):
+                bad.setdefault(blk, []).append('the call of %s at generated line %d does not bind its step count' % (tx, line_of(a) + 1))
+        k += 1
+    return bad
+
+
 def run_unit(unit_path, prop, tier, seed, tag=None):
     name = os.path.splitext(os.path.basename(unit_path))[0]
     gen_dir = os.path.join(GEN, prop if not tag else '%s-%s' % (prop, tag))
@@ -308,6 +357,9 @@ def run_unit(unit_path, prop, tier, seed, tag=None):
                                'blocks_changed': rep['changed'], 'merge_conflicts': rep['conflicts']})
         return u
     conflict_blocks = set(c.get('block') for c in rep['conflicts'])
+    uncounted = cost_guard(gen_lines, owner)
+    for b, why in uncounted.items():
+        u['undecided'].append({'reason': 'uncounted-work', 'detail': '%s: %s' % (b, '; '.join(why[:3])), 'blocks_changed': rep['changed']})
     for d in pv['diags']:
         if is_rlimit(d):
             u['undecided'].append({'reason': 'rlimit', 'detail': d['message'][:200]})
@@ -345,6 +397,8 @@ def run_unit(unit_path, prop, tier, seed, tag=None):
                 'in_real_function': bool(blocks)}
         # annotations of this function could not all be carried over to the changed text (merge conflict): a proof that
         # fails without its hints is undecided, not a violation (the witness search may still decide it)
+        if set(blocks) & set(uncounted):
+            continue  # reported above as uncounted-work: the function's cost annotations do not cover the changed text
         if set(blocks) & conflict_blocks:
             u['undecided'].append({'reason': 'merge-conflict', 'detail': 'obligation %s of %s fails, but annotations were lost in the merge: %s' % (
                 ', '.join(fail['labels']) or d['message'][:80], ', '.join(blocks), '; '.join(c['text'][:60] for c in rep['conflicts'][:3])),
